@@ -538,6 +538,10 @@ func VerifyEvidence(doc *document.Document, evidence *document.ChipAuthEvidence)
 		return nil, fmt.Errorf("[VerifyEvidence] evidence field exceeds maximum length (%d)", maxEvidenceFieldLen)
 	}
 
+	if doc == nil || doc.Mf.Lds1.Dg14 == nil {
+		return nil, fmt.Errorf("[VerifyEvidence] DG14 is nil")
+	}
+
 	params, err := selectChipAuthParams(doc)
 	if err != nil {
 		return nil, fmt.Errorf("[VerifyEvidence] selectChipAuthParams error: %w", err)
